@@ -62,7 +62,9 @@ public:
     void Run(u64 cycles) {
         idle = false;
         for (u64 i = 0; i < cycles; ++i) {
-            if (idle) {
+            // Fast-forward the idle loop, but never over an interrupt request that is already latched: stepping
+            // cycle by cycle would deliver it in this very cycle.
+            if (idle && !IsInterruptLatched()) {
                 u64 skipped = core_timing.Skip(cycles - i - 1);
                 i += skipped;
 
@@ -152,6 +154,14 @@ public:
         vinterrupt_context_switch = false;
         vinterrupt_address = 0;
         idle = false;
+    }
+
+    bool IsInterruptLatched() const {
+        for (const auto& pending : interrupt_pending) {
+            if (pending)
+                return true;
+        }
+        return vinterrupt_pending;
     }
 
     void SignalInterrupt(u32 i) {
